@@ -9,7 +9,7 @@
    by the behavioural tie.  (2) "the score of a reported structure is the objective of its BEST explanation":
    what is proved is [C03_cn_scores_least] (least among the yielded explanations); see DESIGN.md section 5 item 11. *)
 From Coq Require Import String Sorting.Sorted.
-From Aldy Require Import Base Consts Lp CnModel CnSpec CnProofs Consts_here Consts_wf.
+From Aldy Require Import Base Consts Lp CnModel CnSpec CnProofs Consts_here Consts_wf Exprs_cn Tied_cn.
 Import List.
 Open Scope Z_scope.
 
@@ -195,3 +195,15 @@ Proof.
   - vm_compute. reflexivity.
   - vm_compute. reflexivity.
 Qed.
+
+(* ================================================================= tie to the current source tree
+   The decision expressions below are regenerated from /repo's Python AST on every run (harness/gen_exprs.py -> gen/Exprs_cn.v);
+   each theorem says that the model's definition IS that expression, for all arguments.  A change of the expression in the code
+   breaks the obligation even when no sampled input distinguishes old and new behaviour. *)
+Theorem C03_tie_fusion_keep : forall i c f fs v, i_fusion i = Some (f :: fs) ->
+  str_eqb (cf_name c) ONE = false -> is_del_name i (cf_name c) = false ->
+  alookup str_eqb (cf_name c) (f :: fs) = Some v ->
+  keep i c = cn_fusion_keep v (inZ (i_max_cn i)).
+Proof. exact cn_fusion_keep_tied. Qed.
+Goal True. idtac "ASSUME C03_tie_fusion_keep". Abort.
+Print Assumptions C03_tie_fusion_keep.
